@@ -223,6 +223,8 @@ FAMILIES = [
     ("(a+)\\1+$", "a", "b"), ("(?=(a+)+b)a", "a", "c"), ("(?<=(a+)+b)c", "a", "c"), ("(?<=b(a+)+)c", "a", "c"), ("((a+)+)+$", "a", "b"),
     ("(?:a?){20}a{20}", "a", ""), ("^(a+)+$", "a", "!"), ("(?!(a+)+b)a", "a", "c"),
     ("^(?:(?=a)a|a)*$", "a", "!"), ("^(?:a(?<=a)|a(?<=a))*b", "a", ""), ("^(a*)(?:\\1a|a)*$", "a", "!"),
+    # the work is done inside lookaround bodies (a scan of the rest of the subject per iteration)
+    ("^(?:(?!.*z)a)+$", "a", ""), ("^(?:(?=.*$)a)+$", "a", ""), ("^(?:a(?<!z.*))+$", "a", ""), ("(?:(?=(a*))\\1a)*b", "a", "c"),
 ]
 APIS = ["var re = new RegExp(P); re.test(S)", "var re = new RegExp(P); re.exec(S)", "S.match(new RegExp(P))",
         "S.replace(new RegExp(P, 'g'), 'x')", "S.split(new RegExp(P))", "S.search(new RegExp(P))", "S.match(P)", "S.search(P)"]
@@ -248,6 +250,22 @@ def _work(tier):
                 cap = STEP_LIMIT * (len(s) + 2) * 3
                 out.append(("%s via `%s` on %s^%d%s, no time limit" % (pat, api, ch, n, tail),
                             {"src": "var P = %s; %s" % (_js(pat), api), "s": s, "tl": None, "cap": cap}))
+    # without a time limit the step budget alone must stop a quadratic scan, through every API
+    for pat, ch, tail in FAMILIES[-4:]:
+        for api in APIS:
+            for n in (300, 2000) + ((8000,) if tier == "thorough" else ()):
+                s = ch * n + tail
+                out.append(("%s via `%s` on %s^%d%s, no time limit" % (pat, api, ch, n, tail),
+                            {"src": "var P = %s; %s" % (_js(pat), api), "s": s, "tl": None, "cap": STEP_LIMIT * (len(s) + 2) * 3}))
+    # more backtrack entries than the matcher keeps (10 000): a catchable error or a result through every API, never a host one
+    for pat, ch, tail in (("(?:a|b)*c", "a", ""), ("(a|b)*$", "a", "!"), ("(?:a?)*b", "a", ""), ("^(?:a|(b))+?$", "a", "!")):
+        for api in APIS:
+            for n in (9000, 12000, 30000):
+                s = ch * n + tail
+                for tl in (None, 2000):
+                    out.append(("%s via `%s` on %s^%d%s (deep backtrack stack), %s" % (pat, api, ch, n, tail, "time limit set" if tl else "no time limit"),
+                                {"src": "var P = %s; var r; try { r = (function () { return %s })() } catch (e) { r = e.name } r" % (_js(pat), api.split("; ")[-1] if "; " in api else api)
+                                        if False else "var P = %s; %s" % (_js(pat), api), "s": s, "tl": tl, "cap": STEP_LIMIT * (len(s) + 2) * 3}))
     return out
 
 
@@ -269,6 +287,42 @@ def _classes():
             out.append(("character classes %s#%d: all bodies of <= 3 items over %d item kinds" % (neg or "+", i // 400, len(CLASS_ITEMS)),
                         {"patterns": pats[i:i + 400], "literal": True}))
     return out
+
+
+# ------------------------------------------------------------------ matching from every start position a script can set
+POS_PATTERNS = ["a", "(?<=a)b", "(?<!a)b", "\\bc", "\\Bc", "^d", "d$", "(a)\\1", "(?=a)", "(?:)", "a*", "\\ud83d\\ude00", "[^a]", ".", "(?<=\\1(a))b",
+                "(?<=^a)b", "\\b", "$"]
+POS_FLAGS = ["y", "gy", "g", "my", "gm", "yu", "gu", "giy", "sy", ""]
+POS_LASTINDEX = ["0", "1", "2", "3", "4", "5", "100000", "2147483648", "4294967296", "9007199254740993", "-1", "NaN", "Infinity", "-Infinity",
+                 "1.5", "'2'", "null", "undefined", "{valueOf: function () { return 3 }}", "[1]"]
+POS_SUBJECTS = ['""', '"a"', '"ab"', '"aab c"', '"a\\nd"', '"\\ud83d\\ude00a"', '"\\ud83d"', '"abcd"']
+POS_CALLS = ["r.exec(S)", "r.test(S)", "S.match(r)", "S.replace(r, 'x')", "S.replace(r, function (m) { return m + m })", "S.split(r)", "S.search(r)",
+             "S.replaceAll(r, 'x')"]
+
+
+def run_positions(payload):
+    """One (pattern, flags): every lastIndex x subject x call, twice in a row on the same RegExp (a long subject first)."""
+    e = _engine()
+    bad = []
+    for li in POS_LASTINDEX:
+        for subj in POS_SUBJECTS:
+            for call in POS_CALLS:
+                if "replaceAll" in call and "g" not in payload["flags"]:
+                    continue
+                src = ("var r = new RegExp(%s, %s), S = 'aab aab aab aab', out = []; try { out.push(r.exec(S)) } catch (e) { out.push(e.name) } "
+                       "r.lastIndex = %s; S = %s; try { out.push(%s) } catch (e) { out.push(e.name) } try { out.push(%s, r.lastIndex) } "
+                       "catch (e) { out.push(e.name) } out.length" % (_js(payload["p"]), _js(payload["flags"]), li, subj, call, call))
+                oc = e.run_program(src, tl=200)
+                t = oc.rpartition("|")[2]
+                if t != "Rd4010000000000000" and not (t == "Ethrow" and "u" in payload["flags"]):
+                    bad.append("lastIndex = %s, S = %s, %s: %s" % (li, subj, call, t))
+                    if len(bad) >= 8:
+                        return "; ".join(bad) + "\x00ok"
+    return ("ok" if not bad else "; ".join(bad)) + "\x00ok"
+
+
+def _positions():
+    return [("/%s/%s from every lastIndex" % (p, f), {"p": p, "flags": f}) for p in POS_PATTERNS for f in POS_FLAGS]
 
 
 def _sp(name, runner, fn, rule, bound, batch=4, watchdog=60):
@@ -293,6 +347,12 @@ def spaces(tier, seed, all_strata=False):
         _sp("c10_counted", "run_single", _counted, "counted quantifiers with n in {0,1,2,255,256,1000,65535,65536,1e6,2^31,1e20}, "
             "1..5000 sequential groups, 1..1000 nested groups/lookaheads, wide classes and alternations", "sweep",
             batch=1, watchdog=30),
+        _sp("c10_positions", "run_positions", _positions, "%d patterns (lookbehind, word boundaries, anchors, back-references, empty matches, astral "
+            "characters) x %d flag sets x %d values assigned to lastIndex (beyond the subject, beyond 2^32 and 2^53, negative, NaN, fractions, "
+            "objects) x %d subjects (empty, shorter than the previous one, lone surrogate) x %d calls, each on a RegExp that has just matched "
+            "a longer subject: a result or a catchable error, never a host exception" % (
+                len(POS_PATTERNS), len(POS_FLAGS), len(POS_LASTINDEX), len(POS_SUBJECTS), len(POS_CALLS)),
+            "%d x %d x %d x %d x %d" % (len(POS_PATTERNS), len(POS_FLAGS), len(POS_LASTINDEX), len(POS_SUBJECTS), len(POS_CALLS)), batch=2, watchdog=120),
         _sp("c10_work_" + tier, "run_work", lambda: _work(tier), "16 catastrophic-backtracking families x 8 regex-consuming "
             "APIs x subject lengths, with a time limit (work must stop within the poll budget) and without "
             "(work must stay within step_limit x positions); steps counted through the regex hook", "families x lengths",
